@@ -54,7 +54,9 @@ class AkArgumentParser(argparse.ArgumentParser):
 
     def register_dependent(self, name, parser):
         """Register dependent parser"""
-        assert name not in self._dependent_parsers
+        # the same parser may be registered several times (if it can be
+        # reached via different parents)
+        assert self._dependent_parsers.get(name, parser) is parser
         self._dependent_parsers[name] = parser
 
     def add_argument(self, *args, **kwargs):
